@@ -682,6 +682,51 @@ def r07_5(ctx):
         bad = [ln for ln in wl if ln in feeding]
         ctx.ob(f"pair-arithmetic-exact:{b.name}", not bad, site(b, line=bad[0] if bad else None),
                "no arithmetic feeding the unchecked conversions can wrap" if not bad else f"arithmetic at line(s) {bad} can exceed its integer type: the combined code point is truncated (characters above the affected plane decode to wrong characters)")
+        # `|` stands in for `+` only where the two operands cannot have a bit in common (`hi << 10 | lo` with lo < 0x400):
+        # `0x10000 | payload` with a 20-bit payload loses the carry into bit 16 (every even supplementary plane decodes
+        # to the plane below it)
+        for bi in sorted(b.reach()):
+            for si, s_ in enumerate(b.blocks[bi]["stmts"]):
+                if s_["k"] != "assign" or s_["rv"]["k"] != "binop" or s_["rv"]["op"] not in ("BitOr", "BitXor") or s_.get("line") not in feeding:
+                    continue
+                st = iv.state_after(bi, si - 1) if si > 0 else dict(iv.entry.get(bi, {}))
+                va = iv.val(st, s_["rv"]["a"]) if st is not None else None
+                vb = iv.val(st, s_["rv"]["b"]) if st is not None else None
+
+                def bits(v_):
+                    """(mask of bits that may be set, known?) for an interval set: exact for a constant, else every bit
+                    below the highest bit of the maximum; a value known to be a multiple of 2^k (a left shift) is
+                    recognised from its defining statement below."""
+                    if not v_:
+                        return None
+                    hi_ = max(h for _, h in v_)
+                    if len(v_) == 1 and v_[0][0] == v_[0][1]:
+                        return v_[0][0]
+                    return (1 << hi_.bit_length()) - 1
+
+                def low_zero_bits(op_):
+                    # `x << k` with constant k: the low k bits are zero
+                    if not is_place(op_):
+                        return 0
+                    t_ = trace(b, op_)
+                    if t_.origin and t_.origin[0] == "rvalue" and t_.origin[1]["rv"]["k"] == "binop" and t_.origin[1]["rv"]["op"] in ("Shl", "ShlUnchecked"):
+                        k_ = const_value(t_.origin[1]["rv"]["b"])
+                        if k_ is None and is_place(t_.origin[1]["rv"]["b"]):
+                            kt = trace(b, t_.origin[1]["rv"]["b"])
+                            k_ = const_value(kt.origin[1]) if kt.origin and kt.origin[0] == "const" else None
+                        return k_ if isinstance(k_, int) else 0
+                    return 0
+
+                ma, mb = bits(va), bits(vb)
+                if ma is None or mb is None:
+                    continue
+                ma &= ~((1 << low_zero_bits(s_["rv"]["a"])) - 1)
+                mb &= ~((1 << low_zero_bits(s_["rv"]["b"])) - 1)
+                overlap = ma & mb
+                n_or = 1
+                ctx.ob(f"pair-or-is-add:{b.name}:{s_.get('line', 0) - b.raw['span']['line']}", overlap == 0, site(b, line=s_.get("line")),
+                       "the operands of `|` have no bit in common: it adds" if overlap == 0 else
+                       f"`|` combines operands that can both have bit(s) {overlap:#x} set: where `+` would carry, `|` does not, and the code point comes out {overlap & -overlap:#x} too low for part of its range (a character of an even supplementary plane decodes to the plane below)")
     if n == 0 or halves != {"lead", "trail"}:
         ctx.ob("pair-halves", False, "lib", f"surrogate-pair combination incomplete: offsets found for {sorted(halves)} (expected unit - 0xD800 and unit - 0xDC00 feeding the unchecked conversion)")
 
